@@ -140,4 +140,30 @@ def Selector.select (s : Selector) (rs : List Resource) : List Resource :=
   let v1only := result.filter (fun r => r.group == "")
   if s.isSpecific && !v1only.isEmpty then v1only else result
 
+-- ---------------------------------------------------------------------------------------------
+-- the resource criterion over a HISTORY of discoveries (observation.revise_resources re-discovers
+-- the served resources whenever a CRD changes: the same endpoint comes back with other categories,
+-- short names, kind/singular, `preferred` flag)
+
+/-- what `Resource.__eq__` / `__hash__` compare: the API endpoint (group, version, plural) -- NOT the
+    categories, short names, kind, singular or the `preferred` flag, which `check` reads as well -/
+def Resource.endpoint (r : Resource) : String × String × String := (r.group, r.version, r.plural)
+
+/-- one selector instance (it lives as long as the registry) asked about the resource of every
+    event, in order: the code computes `check` afresh each time (`_matches_resource`, `has_handlers`,
+    `get_resource_handlers`, `select` all go through `Selector.check`, which keeps no state) -/
+def Selector.route (s : Selector) (hist : List Resource) : List Bool := hist.map s.check
+
+/-- VARIANT (not the code; seed C15g): the outcome of `check` remembered per resource, i.e. per
+    `Resource.__eq__` = per endpoint. `cache` is the dict, newest entry first. -/
+def Selector.routeMemoFrom (s : Selector) (cache : List ((String × String × String) × Bool)) :
+    List Resource → List Bool
+  | [] => []
+  | r :: rest =>
+    match cache.lookup r.endpoint with
+    | some b => b :: s.routeMemoFrom cache rest
+    | none => s.check r :: s.routeMemoFrom ((r.endpoint, s.check r) :: cache) rest
+
+def Selector.routeMemo (s : Selector) (hist : List Resource) : List Bool := s.routeMemoFrom [] hist
+
 end Kopf.C15
